@@ -156,7 +156,7 @@ pub fn run(tier: Tier, replay: Option<Value>) -> ! {
             sp
         })
         .collect();
-    let mut br = procs::run_many(&specs, bash::procs_par());
+    let mut br = procs::run_many(&specs, bash::procs_par() * 2);
     // confirm every timeout in a second, isolated pass with a doubled budget
     let tix: Vec<usize> = (0..br.len()).filter(|i| br[*i].timed_out).collect();
     let specs2: Vec<procs::ProcSpec> = tix
@@ -167,7 +167,7 @@ pub fn run(tier: Tier, replay: Option<Value>) -> ! {
             sp
         })
         .collect();
-    let r2 = procs::run_many(&specs2, (bash::procs_par() / 2).max(1));
+    let r2 = procs::run_many(&specs2, bash::procs_par() * 2);
     for (k, i) in tix.iter().enumerate() {
         br[*i] = r2[k].clone();
     }
